@@ -167,3 +167,179 @@ Print Assumptions C02_history_guard.
 Print Assumptions C02_history_roundtrip.
 Print Assumptions C02_no_add_after_delete_never_reuses.
 Print Assumptions C02_history_example.
+
+(* ==================================================================================================================
+   Composition pass (X02).  The theorems above keep the operation layer abstract and carry the operation-level facts
+   as hypotheses; the ones below have none.
+
+   (1) C02 o C05.  enc / dec / ndp / vports / sports / has_order are instantiated with the concrete operations and
+       codec of model/CodecOps.v (model/ComposeOps.v: c_enc = <Op>._to_serial with the parent slot at 0, c_dec =
+       deserialize(), c_ndp = ops._num_dataflow_ports, the reader's contract read off the ENCODED operation as in
+       run/C02Run.v).  ndp_spec is proved for every operation; enc_dec_enc and ndp_dec_enc are C05's
+       op_roundtrip_all, which holds for the operations inside C05's domain (op_ok: the encoding returns and the
+       object is one its constructor can have built).  The C02 lemmas needed the two facts for ALL operations; they
+       are re-proved in proofs/SerialHugrOnP.v for "the operations occurring in h" (a generalisation in a new file,
+       not a subset type; the statements above are untouched).  Premise on the nodes: ops_ok_b = C05's op_ok plus
+       tag_ok (a Tag names one of its variants; otherwise ops._num_dataflow_ports raises IndexError).
+       Depth 0 = no function-valued constants (payload type Empty_set); any depth = the tower of
+       model/ComposeDepth.v, where the payload of a function-valued constant one level up is a HUGR of
+       model/SerialHugr.v one level down and C05's payload hypothesis h_rt is this very theorem one level down.
+   (2) C01 -> C02 (-> C05).  model/ComposeBuilder.v: the store of the builder model seen as an API-level HUGR; the
+       builder model's document seen as a SerialHugr document.
+   The metadata hypotheses (md_is_nil md_nil = true; {} is the only empty dictionary) are not about operations and stay.
+   ================================================================================================================== *)
+From HV Require Import model.Types model.SerialTypes model.Codec model.CodecVals model.CodecOps
+  proofs.CodecOpsP proofs.CodecDocP proofs.CodecEqP proofs.SerialHugrOnP
+  model.ComposeOps proofs.ComposeOpsP model.ComposeDepth proofs.ComposeDepthP proofs.ComposeExamplesP.
+From HV Require model.Validity model.Builder spec.BuilderS spec.BuilderWFS proofs.BuilderTypeP model.ComposeBuilder
+  proofs.ComposeBuilderP proofs.ComposeBuilderOpsP.
+
+(* the three operation-level hypotheses of Section C02, discharged for the concrete operations (depth 0) *)
+Theorem C02_concrete_ops_hypotheses_discharged :
+  (forall (o : op E0) d, c_ndp E0 o d =
+      if c_has_order E0 E0 e0 o then Some (c_vports E0 E0 e0 o d + c_sports E0 E0 e0 o d) else None) /\
+  (forall o : op E0, OpOK E0 e0_ok o -> c_enc E0 E0 e0 (c_dec E0 E0 e0 (c_enc E0 E0 e0 o)) = c_enc E0 E0 e0 o) /\
+  (forall (o : op E0) d, OpOK E0 e0_ok o -> c_ndp E0 (c_dec E0 E0 e0 (c_enc E0 E0 e0 o)) d = c_ndp E0 o d) /\
+  (forall o : op E0, op_ok E0 e0_ok o = true -> OpOK E0 e0_ok o).
+Proof.
+  exact (conj (c_ndp_spec E0 E0 e0)
+        (conj (c_enc_dec_enc E0 E0 e0 e0 e0 e0_type e0_ok e0_rt)
+        (conj (c_ndp_dec_enc E0 E0 e0 e0 e0 e0_type e0_ok e0_rt) (op_ok_OpOK E0 e0_ok)))).
+Qed.
+
+(* C02 o C05, depth 0: every HUGR over C05's operations (no function-valued constants) inside the guard whose nodes
+   carry operations of C05's domain serializes, the document loads, the loaded HUGR serializes to the same document
+   and is Iso -- NO hypothesis about operations *)
+Theorem C02_roundtrip_concrete_ops :
+  forall (md : Type) (md_nil : md) (md_is_nil : md -> bool),
+    md_is_nil md_nil = true -> (forall m, md_is_nil m = true -> m = md_nil) ->
+  forall h : hugr (op E0) md,
+    guard_b (c_vports E0 E0 e0) (c_sports E0 E0 e0) (c_has_order E0 E0 e0) h = true ->
+    ops_ok_b md e0_ok h = true ->
+    exists s h', to_serial (c_enc E0 E0 e0) (c_ndp E0) md_is_nil h = Some s /\
+                 from_serial (c_dec E0 E0 e0) (c_ndp E0) md_nil s = Some h' /\
+                 to_serial (c_enc E0 E0 e0) (c_ndp E0) md_is_nil h' = Some s /\
+                 Iso (c_enc E0 E0 e0) h h' /\
+                 (* and each operation comes back as its C05 normal form, attribute by attribute *)
+                 (forall i nd, get_node h i = Some nd ->
+                    exists nd', get_node h' (rank h i) = Some nd' /\ n_op nd' = op_nf E0 e0 (n_op nd)).
+Proof.
+  exact (fun md md_nil md_is_nil H1 H2 h G A =>
+           roundtrip_concrete E0 E0 e0 e0 e0 e0_type e0_ok e0_rt md md_nil md_is_nil H1 H2 h G (ops_ok_OpsIn E0 md e0_ok h A)).
+Qed.
+
+(* C02 o C05 at ANY nesting depth n of function-valued constants (HT md n = the HUGRs embedded in the constants:
+   Empty_set at 0, HUGRs over operations of depth n-1 otherwise; okT = this theorem's own premises on the embedded
+   HUGRs, as a boolean, plus a root with an inner signature) *)
+Theorem C02_roundtrip_concrete_ops_any_depth :
+  forall (md : Type) (md_nil : md) (md_is_nil : md -> bool),
+    md_is_nil md_nil = true -> (forall m, md_is_nil m = true -> m = md_nil) ->
+  forall (n : nat) (h : hugr (op (HT md n)) md),
+    guardT md md_is_nil n h = true -> ops_ok_b md (okT md md_is_nil n) h = true ->
+    exists s h', to_serial (c_enc (HT md n) (ST md n) (encT md md_is_nil n)) (c_ndp (HT md n)) md_is_nil h = Some s /\
+                 from_serial (c_dec (HT md n) (ST md n) (decT md md_nil n)) (c_ndp (HT md n)) md_nil s = Some h' /\
+                 to_serial (c_enc (HT md n) (ST md n) (encT md md_is_nil n)) (c_ndp (HT md n)) md_is_nil h' = Some s /\
+                 Iso (c_enc (HT md n) (ST md n) (encT md md_is_nil n)) h h' /\
+                 (forall i nd, get_node h i = Some nd ->
+                    exists nd', get_node h' (rank h i) = Some nd' /\
+                                n_op nd' = op_nf (HT md n) (nfT md md_nil md_is_nil n) (n_op nd)).
+Proof. exact roundtrip_any_depth. Qed.
+
+(* non-vacuity, depth 0: Module > FuncDecl, FuncDefn > Input, Output, Const Some(true), LoadConst, Const true, LoadConst,
+   Call (function edge on the static port), DFG > Input, Output, Tag; a hole at index 3, metadata, an order link *)
+Example C02_concrete_ops_example :
+  (guard0 ex0 = true /\ ops_ok_b N e0_ok ex0 = true) /\
+  exists s h', to_s0 ex0 = Some s /\ from_s0 s = Some h' /\ to_s0 h' = Some s /\
+    length (s_nodes s) = 14 /\
+    nth_error (s_edges s) 3 = Some ((1, Some 0), (9, Some 1)) /\ nth_error (s_edges s) 9 = Some ((6, Some 1), (10, Some 1)) /\
+    nth_error (s_nodes s) 5 = Some {| s_op := c_enc E0 E0 e0 (OConst (VSum 1%N topt [VSum 1%N tbool []])); s_parent := 2 |} /\
+    h_links h' = map (rename_link (rank ex0)) (h_links ex0) /\
+    nth_error (h_links h') 9 = Some ((6, AOrder), (10, AOrder)).
+Proof. exact (conj ex0_premises ex0_document). Qed.
+(* non-vacuity, depth 1: a DFG loading a function-valued constant whose body is a 5-node HUGR with a constant *)
+Example C02_function_constant_example :
+  (okT N is0 1 body1 = true /\ guardT N is0 1 ex1 = true /\ ops_ok_b N (okT N is0 1) ex1 = true) /\
+  exists s, to_serial (c_enc (HT N 1) (ST N 1) (encT N is0 1)) (c_ndp (HT N 1)) is0 ex1 = Some s /\
+    length (s_nodes s) = 5 /\
+    exists sb, option_map s_op (nth_error (s_nodes s) 3) = Some (SConst 0%N (SVFunction sb)) /\
+               length (s_nodes sb) = 5 /\ length (s_edges sb) = 3.
+Proof. exact (conj ex1_premises ex1_document). Qed.
+
+(* ---- C01 -> C02.  bview A f pc st: the store st of the builder model as an API-level HUGR, operations translated by
+   f, recorded port counts from an arbitrary pc.  vid = the identity: the builder's operation literal is its own encoded
+   form (Builder.to_serial keeps it). ---- *)
+Import model.Validity model.Builder spec.BuilderS spec.BuilderWFS proofs.BuilderTypeP model.ComposeBuilder proofs.ComposeBuilderP
+  proofs.ComposeBuilderOpsP.
+
+(* ANY program of the modelled builder language that runs leaves a hierarchy consistent with index order *)
+Theorem C02_builder_index_ordered : forall pc tys p st,
+  exec_prog tys p = Ok st -> index_ordered_b (bview vop vid pc st) = true.
+Proof. exact builder_index_ordered. Qed.
+(* ... and, when well typed, links only on ports the operations have: the whole guard *)
+Theorem C02_builder_guard : forall pc tys p st,
+  wt_prog tys p = true -> exec_prog tys p = Ok st -> guard_b v_vports v_sports v_has_order (bview vop vid pc st) = true.
+Proof. exact builder_guard. Qed.
+(* the two models of Hugr._to_serial agree: SerialHugr.to_serial on the view of the store is the document
+   Builder.to_serial produces (doc_of_graph: the same nodes and edges, N -> nat, vnode -> snode, no metadata) *)
+Theorem C02_builder_documents_agree : forall pc tys p st g,
+  wt_prog tys p = true -> exec_prog tys p = Ok st -> run tys p = Ok g ->
+  SerialHugr.to_serial vid v_ndp unit_is_nil (bview vop vid pc st) = Some (doc_of_graph vop vid vop vid g).
+Proof. exact builder_documents_agree. Qed.
+(* every well-typed program of the modelled builder language that runs yields a HUGR whose document loads back to an
+   isomorphic HUGR and is a fixed point *)
+Theorem C02_builder_programs_roundtrip : forall pc tys p g,
+  wt_prog tys p = true -> run tys p = Ok g ->
+  exists st h', exec_prog tys p = Ok st /\
+    guard_b v_vports v_sports v_has_order (bview vop vid pc st) = true /\
+    SerialHugr.to_serial vid v_ndp unit_is_nil (bview vop vid pc st) = Some (doc_of_graph vop vid vop vid g) /\
+    SerialHugr.from_serial vid v_ndp tt (doc_of_graph vop vid vop vid g) = Some h' /\
+    SerialHugr.to_serial vid v_ndp unit_is_nil h' = Some (doc_of_graph vop vid vop vid g) /\
+    Iso vid (bview vop vid pc st) h'.
+Proof. exact builder_roundtrip. Qed.
+(* the same end to end through C05's concrete codec: the builder's operation literals concretised into the operations
+   of model/CodecOps.v by any type table tyc and name nm (extension operations as opaque Custom operations); the only
+   premise besides wt_prog / run is that the concretised constants are inside C05's domain *)
+Theorem C02_builder_programs_roundtrip_concrete_ops : forall tyc nm pc tys p g,
+  wt_prog tys p = true -> run tys p = Ok g ->
+  exists st, exec_prog tys p = Ok st /\
+    (ConstsOK E0 tyc nm e0_ok st ->
+     guard_b (c_vports E0 E0 e0) (c_sports E0 E0 e0) (c_has_order E0 E0 e0) (bview (op E0) (conc E0 tyc nm) pc st) = true /\
+     ops_ok_b unit e0_ok (bview (op E0) (conc E0 tyc nm) pc st) = true /\
+     exists h', SerialHugr.to_serial (c_enc E0 E0 e0) (c_ndp E0) unit_is_nil (bview (op E0) (conc E0 tyc nm) pc st) =
+                  Some (doc_of_graph (op E0) (conc E0 tyc nm) (sop E0) (c_enc E0 E0 e0) g) /\
+                SerialHugr.from_serial (c_dec E0 E0 e0) (c_ndp E0) tt (doc_of_graph (op E0) (conc E0 tyc nm) (sop E0) (c_enc E0 E0 e0) g) = Some h' /\
+                SerialHugr.to_serial (c_enc E0 E0 e0) (c_ndp E0) unit_is_nil h' =
+                  Some (doc_of_graph (op E0) (conc E0 tyc nm) (sop E0) (c_enc E0 E0 e0) g) /\
+                Iso (c_enc E0 E0 e0) (bview (op E0) (conc E0 tyc nm) pc st) h').
+Proof. exact builder_roundtrip_concrete. Qed.
+(* the C03 corollary (stated here, not in props/C03.v, which another agent is editing): the document a well-typed
+   builder program serialises is index-sane and port-addressed (C03_serial_index_sane / C03_serial_port_addressing
+   applied to the view) *)
+Theorem C02_builder_documents_wire_format : forall pc tys p g,
+  wt_prog tys p = true -> run tys p = Ok g ->
+  exists st, exec_prog tys p = Ok st /\ IndexSane (doc_of_graph vop vid vop vid g) /\
+    SerialHugr.s_edges (doc_of_graph vop vid vop vid g) =
+      map (expected_edge v_vports v_sports (bview vop vid pc st)) (h_links (bview vop vid pc st)).
+Proof. exact builder_wire_format. Qed.
+(* non-vacuity: the 13-node program of C01_wf_example (Ext wire + its order edge, constant at the root, partial
+   operations, Tag, linear value) satisfies every premise, also after concretisation *)
+Example C02_builder_example : wt_prog ex2_tys ex2_prog = true /\
+  exists g st, run ex2_tys ex2_prog = Ok g /\ exec_prog ex2_tys ex2_prog = Ok st /\
+    ConstsOK E0 ex_tyc 7%N e0_ok st /\
+    existsb (fun e => port_link e && negb (optN_eqb (anc_sib st (e_src e) (e_dst e)) (Some (e_dst e)))) (s_links st) = true /\
+    length (SerialHugr.s_nodes (doc_of_graph (op E0) (conc E0 ex_tyc 7%N) (sop E0) (c_enc E0 E0 e0) g)) = 13 /\
+    guard_b (c_vports E0 E0 e0) (c_sports E0 E0 e0) (c_has_order E0 E0 e0) (bview (op E0) (conc E0 ex_tyc 7%N) ex_pc st) = true.
+Proof. exact ex2_end_to_end. Qed.
+
+Print Assumptions C02_concrete_ops_hypotheses_discharged.
+Print Assumptions C02_roundtrip_concrete_ops.
+Print Assumptions C02_roundtrip_concrete_ops_any_depth.
+Print Assumptions C02_concrete_ops_example.
+Print Assumptions C02_function_constant_example.
+Print Assumptions C02_builder_index_ordered.
+Print Assumptions C02_builder_guard.
+Print Assumptions C02_builder_documents_agree.
+Print Assumptions C02_builder_programs_roundtrip.
+Print Assumptions C02_builder_programs_roundtrip_concrete_ops.
+Print Assumptions C02_builder_documents_wire_format.
+Print Assumptions C02_builder_example.
